@@ -453,11 +453,46 @@ def bounded(ctx):
                     if d and len(fails) < 3:
                         fails.append({"input": {"cell": label, "lengths": L, "angles_deg": np.degrees(A).round(3).tolist(), "format": fmt}, "observed": d,
                                       "clause": "save then load reproduces the cell parameters and structure", "key": f"{fmt}-special-cell"})
+            # (d) the format named explicitly (file name without a telling extension), for saving and for loading
+            for fmt_kw, fmt in (("cif", "cif"), (".cif", "cif"), ("res", "res"), (".res", "res")):
+                evals += 1
+                try:
+                    c = random_crystal(rng, 14, "b1")
+                    p = os.path.join(tmp, "structure.out")
+                    c.save(p, fmt=fmt_kw)
+                    back = Crystal.load(p, fmt=fmt_kw)
+                    if isinstance(back, dict):
+                        back = list(back.values())[0]
+                    d = same_structure(c, back, fmt, PREC[fmt])
+                except Exception as e:  # noqa
+                    d = {"exception": repr(e)[:200]}
+                if d and len(fails) < 3:
+                    fails.append({"input": {"setting": "14:b1", "file_name": "structure.out", "fmt_keyword": fmt_kw}, "observed": d,
+                                  "clause": "save(path, fmt=...) then load(path, fmt=...) reproduces the structure (format given explicitly instead of by extension)", "key": f"{fmt}-explicit-fmt"})
+            # (e) a crystal DERIVED from one that was loaded from a CIF (P1 form, supercell): what is written is the derived crystal, not the file it once came from
+            for number, choice in ((14, "b1"), (33, ""), (2, "")):
+                for derive, dname in ((lambda x: x.as_P1(), "as_P1()"), (lambda x: x.as_P1_supercell((2, 1, 1)), "as_P1_supercell((2,1,1))")):
+                    for fmt in ("cif", "res"):
+                        evals += 1
+                        try:
+                            c0 = random_crystal(rng, number, choice, nsites=3)
+                            c0.save(os.path.join(tmp, "parent.cif"))
+                            parent = Crystal.load(os.path.join(tmp, "parent.cif"))
+                            c = derive(parent)
+                            orig, back = roundtrip(c, fmt, tmp)
+                            d = same_structure(orig, back, fmt, PREC[fmt])
+                            if not d and (len(back.asymmetric_unit) != len(c.asymmetric_unit) or back.space_group.international_tables_number != 1):
+                                d = {"sites_written": len(c.asymmetric_unit), "sites_read_back": len(back.asymmetric_unit), "space_group_read_back": back.space_group.international_tables_number}
+                        except Exception as e:  # noqa
+                            d = {"exception": repr(e)[:200]}
+                        if d and len(fails) < 3:
+                            fails.append({"input": {"parent": f"{number}:{choice}, 3 sites, loaded from a CIF file", "derived_by": dname, "format": fmt}, "observed": d,
+                                          "clause": "a crystal derived from a loaded one saves and loads as itself", "key": f"{fmt}-derived"})
     finally:
         for f in os.listdir(tmp):
             os.unlink(os.path.join(tmp, f))
         os.rmdir(tmp)
     ctx.add_bounded("crystal.Crystal.save_load/bounded/whole_files", f"{len(todo)} settings ({'seeded sample incl. origin-choice-1 and R/H settings' if ctx.tier == 'quick' else 'all 530'}) x "
                     "CIF / RES / POSCAR x crystal built in memory or loaded from a CIF first; cells compatible with the setting, 1-8 sites with standard labels, positions in [-0.3, 1.3]; "
-                    "plus in every seed: all 530 settings through .res with one site, low-symmetry cells with coincident edges, a 120x150x210 box and a long oblique cell in all three formats",
+                    "plus in every seed: all 530 settings through .res with one site, low-symmetry cells with coincident edges, a 120x150x210 box and a long oblique cell in all three formats, the format named by the fmt keyword, P1 forms / supercells of CIF-loaded crystals",
                     evals, len(distinct), fails, rule="distinct (setting, format, provenance)")
